@@ -152,9 +152,10 @@ theorem indexByte_append (c : UInt8) : ∀ (l r : Bytes), (∀ x ∈ l, x ≠ c)
     have ih := indexByte_append c t r (fun y hy => h y (by simp [hy]))
     simp [indexByte, hx, ih]
 
-/-- a header value that the scanner returns unchanged: no CR/LF, no blank at either end -/
+/-- a header value that the scanner returns unchanged: no CR/LF, no blank (SP / HTAB, the optional
+whitespace the reader trims) at either end -/
 def cleanVal (v : Bytes) : Bool :=
-  v.all (fun c => c != 10 && c != 13) && v.head? != some 32 && v.getLast? != some 32
+  v.all (fun c => c != 10 && c != 13) && v.head?.all (fun c => !isOWS c) && v.getLast?.all (fun c => !isOWS c)
 
 theorem cleanVal_mem {v : Bytes} (h : cleanVal v = true) : ∀ x ∈ v, x ≠ 10 ∧ x ≠ 13 := by
   intro x hx
@@ -163,12 +164,12 @@ theorem cleanVal_mem {v : Bytes} (h : cleanVal v = true) : ∀ x ∈ v, x ≠ 10
   simpa using this
 
 theorem takeWhile_sp_clean {v : Bytes} (h : cleanVal v = true) (r : Bytes) :
-    ((v ++ 13 :: r).takeWhile (· == 32)) = [] := by
+    ((v ++ 13 :: r).takeWhile isOWS) = [] := by
   cases v with
-  | nil => simp
+  | nil => simp [isOWS]
   | cons a t =>
     simp only [cleanVal, Bool.and_eq_true] at h
-    have : a ≠ 32 := by simpa using h.1.2
+    have : isOWS a = false := by simpa using h.1.2
     simp [this]
 
 theorem trimValue_clean {v : Bytes} (h : cleanVal v = true) : trimValue (v ++ [13]) = v := by
@@ -182,10 +183,10 @@ theorem trimValue_clean {v : Bytes} (h : cleanVal v = true) : trimValue (v ++ [1
     have hl : v.getLast? = some a := by
       rw [← List.head?_reverse, hv]; rfl
     simp only [cleanVal, Bool.and_eq_true] at h
-    have : a ≠ 32 := by
+    have : isOWS a = false := by
       have := h.2; rw [hl] at this; simpa using this
     simp only [Option.some_or, if_true, hv]
-    rw [List.dropWhile_cons_of_neg (by simpa using this), ← hv, List.reverse_reverse]
+    rw [List.dropWhile_cons_of_neg (by simp [this]), ← hv, List.reverse_reverse]
 
 theorem contExtra_zero (s : Bytes) (h : s.head? ≠ some 32 ∧ s.head? ≠ some 9) : contExtra s = 0 := by
   unfold contExtra
@@ -244,7 +245,7 @@ theorem scanNext_line (dn : Bool) (k v more : Bytes) (hk0 : k ≠ [])
       rw [this]
       have hl : (c :: t).length + 1 = (c :: t ++ [58]).length := by simp
       rw [hl, List.drop_left]
-    have htw : (List.takeWhile (fun x => x == 32) (32 :: (v ++ 13 :: 10 :: more))).length = 1 := by
+    have htw : (List.takeWhile isOWS (32 :: (v ++ 13 :: 10 :: more))).length = 1 := by
       rw [List.takeWhile_cons_of_pos (by decide), takeWhile_sp_clean hv]; rfl
     rw [hd1, htw]
     simp only [List.drop_succ_cons, List.drop_zero, i10b]
@@ -825,13 +826,15 @@ theorem cleanVal_digits (n : Nat) : cleanVal (appendUintDec n) = true := by
     | cons a t =>
       have := hd a (by rw [h]; simp)
       have h1 : a ≠ 32 := by intro e; subst e; revert this; decide
-      simp [h1]
+      have h2 : a ≠ 9 := by intro e; subst e; revert this; decide
+      simp [isOWS, h1, h2]
   · cases h : (appendUintDec n).getLast? with
     | none => simp
     | some a =>
       have := hd a (List.mem_of_getLast? h)
       have h1 : a ≠ 32 := by intro e; subst e; revert this; decide
-      simp [h1]
+      have h2 : a ≠ 9 := by intro e; subst e; revert this; decide
+      simp [isOWS, h1, h2]
 
 theorem cleanVal_const : cleanVal strChunked = true ∧ cleanVal strClose = true := by decide
 
